@@ -10,6 +10,7 @@ struct Step
 {
     int kind;
     int wave;    // wave submitted by this step (-1: none)
+    int reps = 1;    // ST_SUSPEND_RESUME without a wave: number of back-to-back suspend();resume() cycles
 };
 struct Incarnation
 {
@@ -60,7 +61,7 @@ static Case decode(tape_t const& tape)
             else if (kind == 1) in.steps.push_back({ST_SUSPEND_RESUME, w});
             else in.steps.push_back({ST_BURST_WAIT, w});
             if (t.chance(1, 2)) in.steps.push_back({ST_WAIT, -1});
-            if (in.entry != 2 && t.chance(1, 5)) in.steps.push_back({ST_SUSPEND_RESUME, -1});
+            if (in.entry != 2 && t.chance(1, 5)) in.steps.push_back({ST_SUSPEND_RESUME, -1, t.pick({1, 1, 3, 20, 200})});
         }
         c.inc.push_back(std::move(in));
     }
@@ -81,7 +82,7 @@ static std::string describe(tape_t const& tape)
         os << (k ? ", " : "") << "{\"entry\": \"" << en[in.entry] << "\", \"ret\": " << in.ret << ", \"finalize_from\": \"" << fn[in.finalizer]
            << "\", \"steps\": [";
         for (std::size_t s = 0; s < in.steps.size(); ++s)
-            os << (s ? ", " : "") << "\"" << sn[in.steps[s].kind] << (in.steps[s].wave >= 0 ? " wave " + std::to_string(in.steps[s].wave) : std::string()) << "\"";
+            os << (s ? ", " : "") << "\"" << sn[in.steps[s].kind] << (in.steps[s].wave >= 0 ? " wave " + std::to_string(in.steps[s].wave) : std::string()) << (in.steps[s].reps > 1 ? " x" + std::to_string(in.steps[s].reps) : std::string()) << "\"";
         os << "], \"config\": " << in.cfg.describe() << ", \"program\": " << in.prog.describe() << "}";
     }
     os << "]}";
@@ -134,7 +135,21 @@ static std::string run_steps(Incarnation const& in, Interp& ip, bool in_task, st
         }
         case ST_SUSPEND_RESUME:
         {
+            // resume() right after suspend() returned: the workers may not have reached their sleep yet
+            for (int rep = 1; rep < st.reps; ++rep)
             {
+                {
+                    BoundedCall bc("pika::suspend() (back-to-back cycle " + std::to_string(rep) + ")");
+                    MainWaiting mw;
+                    pika::suspend();
+                }
+                g_suspended.store(1);
+                g_suspended.store(0);
+                BoundedCall bc("pika::resume() right after pika::suspend() returned (back-to-back cycle " + std::to_string(rep) + ")");
+                pika::resume();
+            }
+            {
+                BoundedCall bc("pika::suspend()");
                 MainWaiting mw;
                 pika::suspend();
             }
@@ -148,7 +163,10 @@ static std::string run_steps(Incarnation const& in, Interp& ip, bool in_task, st
                 nanosleep(&ts, nullptr);
             }
             g_suspended.store(0);
-            pika::resume();
+            {
+                BoundedCall bc("pika::resume()");
+                pika::resume();
+            }
             if (st.wave >= 0) submitted[static_cast<std::size_t>(st.wave)] = 1;
             break;
         }
